@@ -30,7 +30,7 @@ using Rule = Issue::ReferenceRule;
 using RuleSet = std::set<Rule>;
 
 #define C04_RULES(X) \
-    X(UNDEFINED) X(XML) X(XML_ID_ATTRIBUTE) X(MODEL_NAME) X(MODEL_NAME_VALUE) X(IMPORT_HREF) X(IMPORT_HREF_LOCATOR) X(IMPORT_UNITS_NAME) X(IMPORT_UNITS_NAME_VALUE) \
+    X(UNDEFINED) X(XML) X(XML_UNEXPECTED_CHARACTER) X(XML_ID_ATTRIBUTE) X(MODEL_NAME) X(MODEL_NAME_VALUE) X(IMPORT_HREF) X(IMPORT_HREF_LOCATOR) X(IMPORT_UNITS_NAME) X(IMPORT_UNITS_NAME_VALUE) \
     X(IMPORT_UNITS_NAME_UNIQUE) X(IMPORT_UNITS_UNITS_REFERENCE) X(IMPORT_UNITS_UNITS_REFERENCE_VALUE) X(IMPORT_UNITS_UNITS_REFERENCE_VALUE_TARGET) X(IMPORT_COMPONENT_NAME) \
     X(IMPORT_COMPONENT_NAME_VALUE) X(IMPORT_COMPONENT_NAME_UNIQUE) X(IMPORT_COMPONENT_COMPONENT_REFERENCE) X(IMPORT_COMPONENT_COMPONENT_REFERENCE_VALUE) \
     X(IMPORT_COMPONENT_COMPONENT_REFERENCE_TARGET) X(IMPORT_EQUIVALENT_INFOSET) X(UNITS_NAME) X(UNITS_NAME_VALUE) X(UNITS_NAME_UNIQUE) X(UNITS_STANDARD) X(UNIT_UNITS) X(UNIT_UNITS_REFERENCE) \
@@ -647,6 +647,7 @@ struct Applied
     std::function<void(BuiltAll &)> post; // API-level part of the fault, run after build (and import resolution)
     bool importerMayFail = false; // the fault sits on an import reference: resolution of that import may fail
     bool nontrivial = false; // set by apply when the site alone does not tell
+    bool isolate = false; // validate in a forked child first: the fault is known to be able to kill the process
 };
 
 struct Family
@@ -786,6 +787,8 @@ bool libUnitsIsReached(const Ctx &ctx, int li, int ui, int depth = 0)
     }
     return false;
 }
+
+std::string cnText(const std::string &text, const std::string &units);
 
 std::string attrEsc(const std::string &s)
 {
@@ -1544,6 +1547,22 @@ void registerIdFamilies()
                         auto slots = idSlots(ctx.base);
                         std::string wa;
                         const std::string id = bad[aux % bad.size()];
+                        if ((kind == "map_variables" || kind == "connection") && (aux >> 20) % 4 == 0) {
+                            // valid renamings after which "variable name + component name" reads the same on both sides of
+                            // the mapping (k_c04 + zq = k_ + c04zq): string keys built by concatenation cannot tell them apart
+                            const auto &sl = slots[static_cast<size_t>(s.a)];
+                            const auto cn = ctx.base.conns[static_cast<size_t>(sl.cn)];
+                            const auto mp = cn.maps[static_cast<size_t>(std::max(sl.mp, 0))];
+                            if (findComp(ctx.base, "zq") < 0 && findComp(ctx.base, "c04zq") < 0 && findVar(ctx.base.comps[static_cast<size_t>(cn.c1)], "k_c04") < 0 && findVar(ctx.base.comps[static_cast<size_t>(cn.c2)], "k_") < 0) {
+                                ctx.base.comps[static_cast<size_t>(cn.c1)].name = "zq";
+                                ctx.base.comps[static_cast<size_t>(cn.c2)].name = "c04zq";
+                                renameVariable(ctx.base, cn.c1, mp.v1, "k_c04");
+                                renameVariable(ctx.base, cn.c2, mp.v2, "k_");
+                                ap.tags.push_back("id-key:variable+component-names-concatenate-alike");
+                                ap.loc = "names-concatenate-alike";
+                                ap.nontrivial = true;
+                            }
+                        }
                         if (!setSlotId(ctx.base, slots[static_cast<size_t>(s.a)], id, aux >> 8, &wa)) {
                             return false;
                         }
@@ -1703,52 +1722,125 @@ void registerResetFamilies()
                },
                true);
     }
+    for (int which = 0; which < 2; ++which) {
+        FAMILY(which == 0 ? "reset:variable-in-no-component" : "reset:test_variable-in-no-component", resetSites,
+               [which](Ctx &ctx, const Site &s, uint64_t, Applied &ap) {
+                   ap.desc = resetDesc(ctx, s) + (which == 0 ? ": variable" : ": test_variable") + " := a variable that belongs to no component";
+                   ap.accept = {which == 0 ? R(RESET_VARIABLE_REFERENCE) : R(RESET_TEST_VARIABLE_REFERENCE)};
+                   ap.isolate = true;
+                   Site site = s;
+                   ap.post = [site, which](BuiltAll &b) {
+                       Built &bm = site.mi < 0 ? b.base : b.libs[static_cast<size_t>(site.mi)];
+                       auto reset = bm.resets[static_cast<size_t>(site.ci)][static_cast<size_t>(site.k)];
+                       auto orphan = Variable::create("c04_orphan");
+                       orphan->setUnits("second");
+                       b.keep.push_back(orphan);
+                       if (which == 0) {
+                           reset->setVariable(orphan);
+                       } else {
+                           reset->setTestVariable(orphan);
+                       }
+                   };
+                   return true;
+               },
+               true);
+    }
     FAMILY("dup:reset.order",
            [](const Ctx &ctx, std::vector<Site> &out) {
-               // pairs of resets (of the model under validation) whose variables are, or can validly be made, members of one connected variable set
+               // pairs of variables (of local components of the model under validation) in one connected variable set; the
+               // fault first makes sure, by valid edits, that each is the variable of a reset (re-targeting or adding one)
                const ModelSpec &m = ctx.base;
                std::map<std::pair<int, int>, std::set<std::pair<int, int>>> direct;
                auto sets = connectedSets(m, &direct);
-               for (size_t c1 = 0; c1 < m.comps.size(); ++c1) {
-                   for (size_t r1 = 0; r1 < m.comps[c1].resets.size(); ++r1) {
-                       for (size_t c2 = 0; c2 < m.comps.size(); ++c2) {
-                           for (size_t r2 = 0; r2 < m.comps[c2].resets.size(); ++r2) {
-                               if (c1 == c2 && r1 == r2) {
-                                   continue;
-                               }
-                               // candidate variables: any variable of c1 with any variable of c2 in the same set
-                               for (size_t v1 = 0; v1 < m.comps[c1].vars.size(); ++v1) {
-                                   for (size_t v2 = 0; v2 < m.comps[c2].vars.size(); ++v2) {
-                                       std::pair<int, int> x {static_cast<int>(c1), static_cast<int>(v1)}, y {static_cast<int>(c2), static_cast<int>(v2)};
-                                       if (sets[x] != sets[y] || (c1 == c2 && v1 != v2)) {
-                                           continue;
-                                       }
-                                       Site s;
-                                       s.ci = static_cast<int>(c2);
-                                       s.k = static_cast<int>(r2);
-                                       s.a = static_cast<int>(c1);
-                                       s.b = static_cast<int>(r1);
-                                       s.c = static_cast<int>(v1 * 64 + v2);
-                                       std::string rel = x == y ? "same-variable" : (direct[x].count(y) != 0 ? "directly-mapped" : "transitively-connected");
-                                       s.loc = depthClass(ctx, -1, s.ci) + "/" + posClass(r2, m.comps[c2].resets.size()) + "/" + rel;
-                                       s.trivial = false;
-                                       out.push_back(s);
-                                   }
-                               }
-                           }
+               for (const auto &x : sets) {
+                   for (const auto &y : sets) {
+                       if (x.second != y.second || y.first < x.first || m.comps[static_cast<size_t>(x.first.first)].import >= 0 || m.comps[static_cast<size_t>(y.first.first)].import >= 0) {
+                           continue;
                        }
+                       if (x.first == y.first && x.first.second != 0) {
+                           continue; // one same-variable site per component is enough: the mapped pairs are what is rare
+                       }
+                       Site s;
+                       s.a = x.first.first;
+                       s.b = x.first.second;
+                       s.ci = y.first.first;
+                       s.k = y.first.second;
+                       std::string rel = x.first == y.first ? "same-variable" : (direct[x.first].count(y.first) != 0 ? "directly-mapped" : "transitively-connected");
+                       s.loc = depthClass(ctx, -1, s.ci) + "/" + rel;
+                       s.trivial = false;
+                       out.push_back(s);
                    }
                }
+               // sets that are connected only through a third variable are the rare ones: when there are any, they are the sites
+               std::vector<Site> far;
+               for (const auto &s : out) {
+                   if (s.loc.find("transitively") != std::string::npos) {
+                       far.push_back(s);
+                   }
+               }
+               if (!far.empty()) {
+                   out.insert(out.end(), far.begin(), far.end());
+                   out.insert(out.end(), far.begin(), far.end());
+               }
            },
-           [](Ctx &ctx, const Site &s, uint64_t, Applied &ap) {
+           [](Ctx &ctx, const Site &s0, uint64_t aux, Applied &ap) {
                ModelSpec &m = ctx.base;
-               auto &ra = m.comps[static_cast<size_t>(s.a)].resets[static_cast<size_t>(s.b)];
-               auto &rb = m.comps[static_cast<size_t>(s.ci)].resets[static_cast<size_t>(s.k)];
-               ra.var = s.c / 64; // a valid re-targeting (any variable of the component may be reset)
-               rb.var = s.c % 64;
-               rb.order = ra.order;
-               ap.desc = "reset " + std::to_string(s.k) + " of " + q(m.comps[static_cast<size_t>(s.ci)].name) + " (variable " + q(m.comps[static_cast<size_t>(s.ci)].vars[static_cast<size_t>(rb.var)].name) + ") gets the order " + std::to_string(ra.order) + " of reset "
-                         + std::to_string(s.b) + " of " + q(m.comps[static_cast<size_t>(s.a)].name) + " (variable " + q(m.comps[static_cast<size_t>(s.a)].vars[static_cast<size_t>(ra.var)].name) + "), which is in the same connected variable set";
+               Site s = s0;
+               if (s.loc.find("directly-mapped") != std::string::npos && (aux >> 12) % 2 == 0) {
+                   // valid edit first: a new child component of the second variable's component with a variable mapped to it;
+                   // the first variable and the new one are then connected only through the second
+                   auto &host = m.comps[static_cast<size_t>(s.ci)];
+                   CompSpec link;
+                   link.name = "c04_link";
+                   link.parent = s.ci;
+                   VarSpec w;
+                   w.name = "c04_w";
+                   w.units = host.vars[static_cast<size_t>(s.k)].units;
+                   w.iface = "public";
+                   link.vars.push_back(w);
+                   host.vars[static_cast<size_t>(s.k)].iface = ifaceUnion(host.vars[static_cast<size_t>(s.k)].iface, "private");
+                   m.comps.push_back(link);
+                   ConnSpec cs;
+                   cs.c1 = s.ci;
+                   cs.c2 = static_cast<int>(m.comps.size()) - 1;
+                   MapSpec ms;
+                   ms.v1 = s.k;
+                   ms.v2 = 0;
+                   cs.maps.push_back(ms);
+                   m.conns.push_back(cs);
+                   s.ci = cs.c2;
+                   s.k = 0;
+                   s.loc = depthClass(ctx, -1, s.ci) + "/transitively-connected";
+                   ap.tags.push_back("reset-order:chain-made-by-valid-edit");
+               }
+               int nextOrder = 1000;
+               auto resetOn = [&](int ci, int var, int avoid) -> int {
+                   auto &c = m.comps[static_cast<size_t>(ci)];
+                   // an existing reset is re-targeted (any variable of the component may be reset), otherwise one is added
+                   for (size_t r = 0; r < c.resets.size(); ++r) {
+                       if (static_cast<int>(r) != avoid && (c.resets[r].var == var || (aux >> 8) % 2 == 0)) {
+                           c.resets[r].var = var;
+                           return static_cast<int>(r);
+                       }
+                   }
+                   ResetSpec r;
+                   r.var = var;
+                   r.testVar = var;
+                   r.hasOrder = true;
+                   r.order = nextOrder++;
+                   r.testValue = mathBlockRaw(cnText("1", "dimensionless"), 0);
+                   r.resetValue = mathBlockRaw(cnText("2", "dimensionless"), 0);
+                   c.resets.push_back(r);
+                   return static_cast<int>(c.resets.size()) - 1;
+               };
+               int ra = resetOn(s.a, s.b, -1);
+               int rb = resetOn(s.ci, s.k, s.a == s.ci ? ra : -1);
+               auto &A = m.comps[static_cast<size_t>(s.a)];
+               auto &B = m.comps[static_cast<size_t>(s.ci)];
+               B.resets[static_cast<size_t>(rb)].order = A.resets[static_cast<size_t>(ra)].order;
+               ap.desc = "reset " + std::to_string(rb) + " of " + q(B.name) + " (variable " + q(B.vars[static_cast<size_t>(s.k)].name) + ") gets the order " + std::to_string(A.resets[static_cast<size_t>(ra)].order) + " of reset "
+                         + std::to_string(ra) + " of " + q(A.name) + " (variable " + q(A.vars[static_cast<size_t>(s.b)].name) + "), which is in the same connected variable set";
+               ap.loc = s.loc + "/" + posClass(static_cast<size_t>(rb), B.resets.size()) + "-reset";
                ap.accept = {R(RESET_ORDER_UNIQUE)};
                return true;
            },
@@ -2400,7 +2492,7 @@ void registerFrags()
             }
         },
         true);
-    add("xml:malformed", {R(XML), R(MATH_MATHML), R(MATH_ELEMENT)},
+    add("xml:malformed", {R(XML), R(XML_UNEXPECTED_CHARACTER), R(MATH_MATHML), R(MATH_ELEMENT)},
         [](const FragEnv &e, uint64_t aux, Applied &ap) {
             std::string inner = e.where == 0 ? "<apply><eq/>" + e.A + e.B + "</apply>" : e.B;
             std::string open = std::string("<math xmlns=\"") + MATHML_NS + "\" xmlns:cellml=\"" + CELLML_NS + "\">";
@@ -2410,6 +2502,20 @@ void registerFrags()
             case 2: ap.tags.push_back("malformed:bare-ampersand"); return open + "<apply><eq/>" + e.A + "<ci> a & b </ci></apply></math>";
             case 3: ap.tags.push_back("malformed:unquoted-attribute"); return "<math xmlns=" + std::string(MATHML_NS) + ">" + inner + "</math>";
             default: ap.tags.push_back("malformed:undeclared-prefix"); return std::string("<math xmlns=\"") + MATHML_NS + "\">" + (e.where == 0 ? "<apply><eq/>" + e.A + cnText("1") + "</apply>" : cnText("1")) + "</math>";
+            }
+        },
+        true);
+
+    add("xml:stray-text", {R(XML), R(XML_UNEXPECTED_CHARACTER), R(MATH_MATHML), R(MATH_ELEMENT), R(COMPONENT_CHILD), R(TEST_VALUE_CHILD), R(RESET_VALUE_CHILD)},
+        [](const FragEnv &e, uint64_t aux, Applied &ap) {
+            // character data next to (or instead of) the math element: not MathML, and not allowed in a component / test_value / reset_value (1.2.3.2)
+            std::string inner = e.where == 0 ? "<apply><eq/>" + e.A + e.B + "</apply>" : e.B;
+            std::string math = std::string("<math xmlns=\"") + MATHML_NS + "\" xmlns:cellml=\"" + CELLML_NS + "\">" + inner + "</math>";
+            switch (aux % 4) {
+            case 0: ap.tags.push_back("stray-text:no-markup-at-all"); return std::string(e.where == 0 ? "x = 1" : "1");
+            case 1: ap.tags.push_back("stray-text:after-the-math-element"); return math + " and then some";
+            case 2: ap.tags.push_back("stray-text:before-the-math-element"); return "see: " + math;
+            default: ap.tags.push_back("stray-text:between-two-math-elements"); return math + " ; " + math;
             }
         },
         true);
@@ -2431,6 +2537,15 @@ void registerFrags()
         case 2: return "<" + n + ">x</" + n + ">";
         case 3: return "<" + n + "/>";
         default: return "<apply><" + n + "/>" + e.A + e.B + "</apply>";
+        }
+    });
+
+    add("element-in-foreign-namespace", {R(MATH_CHILD), R(MATH_MATHML)}, [](const FragEnv &e, uint64_t aux, Applied &ap) {
+        // a supported local name, but not a MathML element
+        switch (aux % 3) {
+        case 0: ap.tags.push_back("foreign:cellml-ci"); return e.v.empty() ? std::string() : "<cellml:ci>" + attrEsc(e.v) + "</cellml:ci>";
+        case 1: ap.tags.push_back("foreign:apply-in-other-namespace"); return "<apply xmlns=\"http://example.org/not-mathml\"><plus/>" + e.A + e.B + "</apply>";
+        default: ap.tags.push_back("foreign:operator-in-cellml-namespace"); return "<apply><cellml:plus/>" + e.A + e.B + "</apply>";
         }
     });
 
@@ -2505,7 +2620,14 @@ void registerFrags()
     add("otherwise:empty", M, [](const FragEnv &e, uint64_t, Applied &) { return "<piecewise><piece>" + e.A + "<apply><gt/>" + e.A + e.B + "</apply></piece><otherwise/></piecewise>"; });
     add("otherwise:two-children", M, [](const FragEnv &e, uint64_t, Applied &) { return "<piecewise><piece>" + e.A + "<apply><gt/>" + e.A + e.B + "</apply></piece><otherwise>" + e.A + e.B + "</otherwise></piecewise>"; });
     // -- cn
-    add("cn:no-units", {R(MATH_CN_UNITS_ATTRIBUTE)}, [](const FragEnv &, uint64_t aux, Applied &) { return std::string(aux % 2 == 0 ? "<cn>1</cn>" : "<cn type=\"e-notation\">1<sep/>2</cn>"); });
+    add("cn:no-units", {R(MATH_CN_UNITS_ATTRIBUTE)}, [](const FragEnv &, uint64_t aux, Applied &ap) {
+        switch (aux % 4) {
+        case 0: return std::string("<cn>1</cn>");
+        case 1: return std::string("<cn type=\"e-notation\">1<sep/>2</cn>");
+        case 2: ap.tags.push_back("cn-units:attribute-in-no-namespace"); return std::string("<cn units=\"second\">1</cn>");
+        default: ap.tags.push_back("cn-units:attribute-in-cellml-1.1-namespace"); return std::string("<cn xmlns:c11=\"http://www.cellml.org/cellml/1.1#\" c11:units=\"second\">1</cn>");
+        }
+    });
     add("cn:empty-units", {R(MATH_CN_UNITS_ATTRIBUTE), R(MATH_CN_UNITS_ATTRIBUTE_REFERENCE), R(DATA_REPR_IDENTIFIER_AT_LEAST_ONE_ALPHANUM)}, [](const FragEnv &, uint64_t, Applied &) { return cnText("1", ""); });
     add("cn:units-not-an-identifier", {R(MATH_CN_UNITS_ATTRIBUTE), R(MATH_CN_UNITS_ATTRIBUTE_REFERENCE), R(DATA_REPR_IDENTIFIER_BEGIN_EURO_NUM), R(DATA_REPR_IDENTIFIER_LATIN_ALPHANUM)},
         [](const FragEnv &, uint64_t aux, Applied &ap) {
@@ -2987,6 +3109,20 @@ void run(Src &src, Case &c)
             // expected for faults on import references and inside library models: the importer has its own checks; what
             // counts here is what the validator says about the model as the importer left it
             c.count("importer-reported-issues-on-faulted-model");
+        }
+        c.cls("fault:" + fam.name);
+        if (ap.isolate) {
+            ModelPtr model = fb.base.model;
+            std::string diag;
+            int rc = runIsolated([](void *arg) { Validator::create()->validateModel(*static_cast<ModelPtr *>(arg)); }, &model, 120, &diag);
+            if (rc != 0) {
+                c.count("faults");
+                gFamilyRuns[fam.name] += 1;
+                gFamilyMisses[fam.name] += 1;
+                faultsText += "fault " + fam.name + " @ " + loc + ": " + ap.desc + "\n";
+                c.alsoFailed.emplace_back("C04.crash|Validator::validateModel|" + fam.name, "the validator process died (status " + std::to_string(rc) + ") on: " + ap.desc + "\n" + diag.substr(0, 3000) + "\n--- faulted model (before the API-level part of the fault) ---\n" + ctxText(fc).substr(0, 4000));
+                continue;
+            }
         }
         Verdict v = validate(fb.base.model);
         c.count("validations");
